@@ -16,6 +16,7 @@ from ..util import (
     ArrayType1D,
     ArrayType2D,
     _convert_timestamp_to_tz_unaware,
+    _null_value_for_numpy_type,
     _val_to_numpy,
     argsort_index_numeric_only,
     array_split_with_chunk_handling,
@@ -1459,9 +1460,11 @@ class GroupBy:
 
                 def broadcast(arr):
                     if (take < 0).any():
-                        if arr.dtype.kind in "mM":
-                            null = np.array(["NaT"], dtype=arr.dtype)
-                        else:
+                        try:
+                            # the null marker of the dtype, as in the other transforms
+                            null = _null_value_for_numpy_type(arr.dtype)
+                            null = np.array([null]).astype(arr.dtype)
+                        except TypeError:
                             null = np.array([np.nan])
                         arr = np.concatenate([arr, null])
                     return arr[take]
@@ -1516,11 +1519,19 @@ class GroupBy:
                 if mask is not None:
                     index = index[mask[indexer]]
 
-        series = (
-            self._convert_arr_to_pandas_series(arr, orig_type, index)
-            for arr, orig_type in zip(arrays, type_list)
-        )
-        result_df = pd.DataFrame(dict(zip(result_col_names, series)))
+        if transform and self._values_is_polars(type_list):
+            # polars in, polars out, as for the other transforms
+            series = (
+                self._convert_arr_to_polars_series(arr, orig_type)
+                for arr, orig_type in zip(arrays, type_list)
+            )
+            result_df = pl.DataFrame(dict(zip(result_col_names, series)))
+        else:
+            series = (
+                self._convert_arr_to_pandas_series(arr, orig_type, index)
+                for arr, orig_type in zip(arrays, type_list)
+            )
+            result_df = pd.DataFrame(dict(zip(result_col_names, series)))
 
         result = self._maybe_squeeze_to_1d(
             result_df, values=values, n_values=len(value_list)
